@@ -20,10 +20,82 @@ import (
 // are therefore NOT claimed (listed in evidence as left unchecked).
 type UnprovedList struct {
 	Names map[string]bool
+	// Paths: the same obligations by kind and field path (the function and the
+	// name of the local variable at the root dropped): moving code into a helper
+	// or renaming a variable does not turn an unclaimed obligation into a new one.
+	Paths map[string]bool
+	// Funcs: the functions swept when the baseline was recorded. A function that
+	// is not among them is a new helper: it has no contract, so what its
+	// parameters point to is unknown to a modular check; a dereference in it whose
+	// field path is the tail of a baseline path (the same access, now rooted at a
+	// parameter) stays unclaimed instead of being reported.
+	Funcs map[string]bool
+}
+
+func (u *UnprovedList) skip(fn, name string, params map[string]bool) bool {
+	if u.Names[name] {
+		return true
+	}
+	p := unprovedPath(name)
+	if p == "" {
+		return false
+	}
+	if u.Paths[p] {
+		return true
+	}
+	if u.isNew(fn) {
+		i := strings.Index(p, "/")
+		kind, tail := p[:i+1], p[i+1:]
+		if tail == "" {
+			return true
+		}
+		// rooted at a parameter of the new helper: what the parameter points to is
+		// the caller's business; the helper is unfolded at its call sites (when it
+		// is loop-free) and the dereference is checked there, in context
+		if m := reOblName.FindStringSubmatch(name); m != nil {
+			if r := reOblRoot.FindString(m[3]); r != "" && params[r] {
+				return true
+			}
+		}
+		for q := range u.Paths {
+			if strings.HasPrefix(q, kind) && strings.HasSuffix(q, tail) {
+				return true
+			}
+		}
+	}
+	return false
+}
+
+var reOblName = regexp.MustCompile(`^(.*)/(nil|nilinvoke|nilcall|nilmap|index|slice|typeassert)/(.*?)(#\d+)*$`)
+var reLocalRoot = regexp.MustCompile(`^(?:_|[a-z][A-Za-z0-9_]*|t\d+)(?:#\d+)?((?:[.\[(].*)?)$`)
+
+var reOblRoot = regexp.MustCompile(`^(?:_|[a-z][A-Za-z0-9_]*)`)
+
+func (u *UnprovedList) isNew(fn string) bool { return len(u.Funcs) > 0 && !u.Funcs[fn] }
+
+// unprovedPath: "generator.NewRouter/nil/sec.Scheme.Type#2" -> "nil/.Scheme.Type"; "" for other kinds.
+func unprovedPath(name string) string {
+	m := reOblName.FindStringSubmatch(name)
+	if m == nil {
+		return ""
+	}
+	detail := m[3]
+	if r := reLocalRoot.FindStringSubmatch(detail); r != nil {
+		detail = r[1]
+	}
+	return m[2] + "/" + detail
 }
 
 func LoadUnproved(path string) *UnprovedList {
-	u := &UnprovedList{Names: map[string]bool{}}
+	u := &UnprovedList{Names: map[string]bool{}, Paths: map[string]bool{}, Funcs: map[string]bool{}}
+	if fd, err := os.ReadFile(strings.TrimSuffix(path, "-unproved.json") + "-functions.json"); err == nil {
+		var fs []string
+		if json.Unmarshal(fd, &fs) == nil {
+			for _, f := range fs {
+				u.Funcs[f] = true
+			}
+		}
+	}
 	data, err := os.ReadFile(path)
 	if err != nil {
 		return u
@@ -32,6 +104,9 @@ func LoadUnproved(path string) *UnprovedList {
 	if json.Unmarshal(data, &names) == nil {
 		for _, n := range names {
 			u.Names[n] = true
+			if p := unprovedPath(n); p != "" {
+				u.Paths[p] = true
+			}
 		}
 	}
 	return u
@@ -67,6 +142,10 @@ func (cr *CheckRun) sweepFunctions(w *World, fns []*ssa.Function, nameOf func(*s
 			}()
 			e := &FuncEnc{W: w, Fn: f, Name: nameOf(f), D: NewDecls(), Contract: w.ContractFor(f)}
 			e.PostEncode = func() { tagProps(e, opt.SafetyProp) }
+			params := map[string]bool{}
+			for _, p := range f.Params {
+				params[p.Name()] = true
+			}
 			filter := func(o *Obligation) bool {
 				has := false
 				for _, p := range o.Props {
@@ -77,7 +156,7 @@ func (cr *CheckRun) sweepFunctions(w *World, fns []*ssa.Function, nameOf func(*s
 				if !has {
 					return false
 				}
-				if !opt.Record && opt.Unproved != nil && opt.Unproved.Names[o.Name] {
+				if !opt.Record && opt.Unproved != nil && opt.Unproved.skip(e.Name, o.Name, params) {
 					mu.Lock()
 					skipped++
 					mu.Unlock()
@@ -186,14 +265,27 @@ func (cr *CheckRun) CheckGeneratorSafety(record bool) {
 		}
 		f.Replay = &ReplayResult{Reproduced: false, Input: fmt.Sprintf("%d structural mutations of corpus specs", mutationCount), Observed: fmt.Sprintf("%d crashes, none in %s", len(crashes), short), Cmd: "goag on structurally mutated corpus specs"}
 	}
+	if !record {
+		// helpers that did not exist when the baseline was recorded are unfolded
+		// at their call sites (loop-free ones): their dereferences are checked in
+		// the caller's context and named after the caller's argument
+		w.InlineNamed = func(f *ssa.Function) bool { return opt.Unproved.isNew(repoFnName(f)) }
+	}
 	unproved := cr.sweepFunctions(w, fns, repoFnName, opt, replay)
 		cr.Assumed["machine integers treated as mathematical (overflow obligations off for this sweep)"] = true
-	cr.Assumed[fmt.Sprintf("%d safety obligations that do not discharge on the unchanged tree are listed in baseline/C15-unproved.json and are not claimed", len(opt.Unproved.Names))] = true
+	cr.Assumed[fmt.Sprintf("%d safety obligations that do not discharge on the unchanged tree are listed in baseline/C15-unproved.json and are not claimed; they are matched by name or by kind and field path (%d paths), so the same dereference moved into a helper stays unclaimed", len(opt.Unproved.Names), len(opt.Unproved.Paths))] = true
 	if record {
 		_ = os.MkdirAll(filepath.Dir(listPath), 0o755)
 		data, _ := json.MarshalIndent(unproved, "", " ")
 		_ = os.WriteFile(listPath, data, 0o644)
 		fmt.Printf("recorded %d unproved obligations in %s\n", len(unproved), listPath)
+		var names []string
+		for _, f := range fns {
+			names = append(names, repoFnName(f))
+		}
+		sort.Strings(names)
+		data, _ = json.MarshalIndent(names, "", " ")
+		_ = os.WriteFile(strings.TrimSuffix(listPath, "-unproved.json")+"-functions.json", data, 0o644)
 	}
 	// exit status: main must reach log.Fatalf whenever generation returned an error
 	cr.checkMainExit(w)
